@@ -973,18 +973,29 @@ func windowTest(tb *TermBuilder, deb string, cond *Term) (string, *ssa.BasicBloc
 						if i == win {
 							continue
 						}
-						// (a call applied to the element of the list, not a call that produced the list)
-						computed := a.contains(func(x *Term) bool {
-							if x.Op != "call" || strings.HasPrefix(x.Name, "builtin:") {
+						// (the element of a list as it stands - whatever produced the list - is the ban itself; anything
+						// worked out from it, by a call of any kind, is the other strand's slot)
+						var isComputed func(x *Term, d int) bool
+						isComputed = func(x *Term, d int) bool {
+							if x == nil || d > 6 {
 								return false
 							}
-							for _, xa := range x.Args {
-								if xa.contains(func(y *Term) bool { return y.Op == "each" || y.Op == "index" }) {
-									return true
+							switch x.Op {
+							case "each", "index", "param", "const", "field", "deref":
+								return false
+							case "phi", "anyof", "conv":
+								for _, xa := range x.Args {
+									if isComputed(xa, d+1) {
+										return true
+									}
 								}
+								return false
+							case "call":
+								return !strings.HasPrefix(x.Name, "builtin:")
 							}
-							return false
-						})
+							return x.contains(func(y *Term) bool { return y.Op == "call" && !strings.HasPrefix(y.Name, "builtin:") })
+						}
+						computed := isComputed(a, 0)
 						if computed && !strings.HasSuffix(k, "(rc)") {
 							k += "(rc)"
 						}
